@@ -25,12 +25,12 @@ import (
 func c14Scenarios() []srvScenarioDef {
 	reg := []string{"reg:G1:temp", "auth:1:kA:1000:G1", "rep:1:kA:100:500"}
 	return []srvScenarioDef{
-		{Name: "C14a archive || new device + its first report", Init: stdInit, Threads: [][]string{{"archive"}, {"auth:3:kC:1000:G1", "rep:3:kC:100:500"}}, FSPoints: true, StateOnly: true},
-		{Name: "C14b archive || registration + first device + first report", Init: []string{"now:100"}, Threads: [][]string{{"archive"}, reg}, FSPoints: true, StateOnly: true},
-		{Name: "C14c archive || rotation", Init: append(append([]string{}, stdInit...), "rep:1:kA:100:500"), Threads: [][]string{{"archive"}, {"rot"}}, FSPoints: true, StateOnly: true},
-		{Name: "C14e archive || the same registration submitted again", Init: append(append([]string{}, stdInit...), "rep:1:kA:100:500"), Threads: [][]string{{"archive"}, {"reg:G1:temp"}}, FSPoints: true, StateOnly: true},
-		{Name: "C14f archive || report burst of two devices", Init: stdInit, Threads: [][]string{{"archive"}, {"rep:1:kA:100:500", "rep:2:kB:100:700", "rep:1:kA:101:500"}}, FSPoints: true, StateOnly: true},
-		{Name: "C14d archive || conflicting authorization of a device with reports", Init: append(append([]string{}, stdInit...), "rep:1:kA:100:500"), Threads: [][]string{{"archive"}, {"auth:1:kX:1000:G1"}}, FSPoints: true, StateOnly: true},
+		{Name: "C14a archive || new device + its first report", Init: stdInit, Threads: [][]string{{"archive"}, {"auth:3:kC:1000:G1", "rep:3:kC:100:500"}}, FSPoints: true, PageTear: true, StateOnly: true},
+		{Name: "C14b archive || registration + first device + first report", Init: []string{"now:100"}, Threads: [][]string{{"archive"}, reg}, FSPoints: true, PageTear: true, StateOnly: true},
+		{Name: "C14c archive || rotation", Init: append(append([]string{}, stdInit...), "rep:1:kA:100:500"), Threads: [][]string{{"archive"}, {"rot"}}, FSPoints: true, PageTear: true, StateOnly: true},
+		{Name: "C14e archive || the same registration submitted again", Init: append(append([]string{}, stdInit...), "rep:1:kA:100:500"), Threads: [][]string{{"archive"}, {"reg:G1:temp"}}, FSPoints: true, PageTear: true, StateOnly: true},
+		{Name: "C14f archive || report burst of two devices", Init: stdInit, Threads: [][]string{{"archive"}, {"rep:1:kA:100:500", "rep:2:kB:100:700", "rep:1:kA:101:500"}}, FSPoints: true, PageTear: true, StateOnly: true},
+		{Name: "C14d archive || conflicting authorization of a device with reports", Init: append(append([]string{}, stdInit...), "rep:1:kA:100:500"), Threads: [][]string{{"archive"}, {"auth:1:kX:1000:G1"}}, FSPoints: true, PageTear: true, StateOnly: true},
 	}
 }
 
@@ -163,9 +163,30 @@ func init() {
 		p := pool.New(0)
 		defs := c14Scenarios()
 		execs, ok := runScenarios(run, defs, bound, p)
+		// histories: an archive taken at rest after every history of trusted and forged submissions
+		harg := opsArg{Name: "c14h", Init: []string{"reg:G1:temp", "now:100"}, ArchiveCheck: true}
+		hops := edgeIDs([]string{
+			"auth:1:kA:1000:G1", "auth:1:kA:2000:G1", "auth:1:kA:1000:G1:stale", "auth:1:kA:1000:G1:flip", "auth:1:kA:2000:G2", "auth:1:kA:1000:temp",
+			"auth:2:kB:1000:G1", "auth:2:kA:1000:G1:stale",
+			"rep:1:kA:now:500", "rep:1:kA:now:600", "rep:1:kB:now:500", "rep:2:kB:now:700", "rep:2:kA:now:700",
+			"rot", "restart", "reg:G2:temp", "reg:G1:temp",
+		})
+		hdepth := 4
+		if tier == "thorough" {
+			hdepth = 6
+		}
+		hst := bfsPool(run, p, "ops", harg, hdepth, 0, authFilter(harg.Init, hops))
+		run.Coverage["history_states"] = hst.States
+		run.Coverage["history_transitions"] = hst.Transitions
+		run.Coverage["history_depth"] = hst.Depth
+		run.Coverage["history_alphabet"] = hops
+		if hst.HarnessErrors > 0 {
+			ok = false
+		}
+		execs += hst.Transitions
 		// rate limit in front of the handler, virtual time
 		rl := c14RateLimit(run)
-		finishScenarios(run, execs, len(defs), bound, "; file-system calls (open, read, write, create) are scheduling points, so the write burst lands in every gap between two file reads of the archive handler and inside the truncate/write gap of a key file; every zip produced is checked: each public file a record-aligned prefix of the final file, every report has a verifying authorization in the same archive, every authorization verifies under the archived GCA key, every week under the archived server key, server.pubkey is exactly the public half, the private key occurs nowhere")
+		finishScenarios(run, execs, len(defs), bound, "; file-system calls (open, read, write, create) are scheduling points, so the write burst lands in every gap between two file reads of the archive handler and inside the truncate/write gap of a key file; every zip produced is checked: each public file a record-aligned prefix of the final file, every report has a verifying authorization in the same archive, every authorization verifies under the archived GCA key, every week under the archived server key, server.pubkey is exactly the public half, the private key occurs nowhere; plus BFS over histories of valid, conflicting, forged (altered after signing, flipped bit, foreign GCA, temp key) authorizations, reports under right and wrong keys, rotations, restarts and repeated registrations, with an archive taken at rest in every distinct state (same oracle, and each archived file must be the complete file)")
 		run.Coverage["rate_limit_requests"] = rl
 		rc := run.Finish()
 		if !ok && rc == 0 {
